@@ -125,7 +125,7 @@ func (b *Beh) NativeAgrees(stdout, stderr string, exit int) (bool, string) {
 		if !strings.HasPrefix(last, pv) {
 			return false, "last panic value differs: " + firstLine(last)
 		}
-	} else if !strings.Contains(stderr, "runtime error") && !strings.Contains(stderr, "interface conversion") && !strings.Contains(stderr, "close of closed channel") && !strings.Contains(stderr, "assignment to entry in nil map") {
+	} else if !strings.Contains(stderr, "runtime error") && !strings.Contains(stderr, "interface conversion") && !strings.Contains(stderr, "close of closed channel") && !strings.Contains(stderr, "send on closed channel") && !strings.Contains(stderr, "assignment to entry in nil map") {
 		return false, "not a run-time fault"
 	}
 	return true, ""
